@@ -566,7 +566,14 @@ class BuiltinMixin:
     def me_bytes_find(self, v, st, args, kwargs, fx):
         if len(args) != 1 or not isinstance(args[0], BytesV):
             raise OutOfReach("bytes.find signature")
-        return [Ev(st, IntV(z3.IndexOf(v.t, args[0].t, 0)))]
+        p = z3.IndexOf(v.t, args[0].t, 0)
+        t = args[0].t
+        # A-find made explicit for the solvers (it is the SMT-LIB meaning of str.indexof): the match is at p and
+        # no occurrence starts before p
+        st.assume(z3.Implies(p >= 0, z3.And(z3.SubString(v.t, p, z3.Length(t)) == t,
+                                             z3.Not(z3.Contains(z3.SubString(v.t, 0, p + z3.Length(t) - 1), t)))),
+                  z3.Implies(p < 0, z3.Not(z3.Contains(v.t, t))), p >= -1)
+        return [Ev(st, IntV(p))]
 
     def me_bytes_startswith(self, v, st, args, kwargs, fx):
         if not isinstance(args[0], BytesV):
@@ -578,6 +585,45 @@ class BuiltinMixin:
 
     def me_bytes_isdigit(self, v, st, args, kwargs, fx):
         return [Ev(st, BoolV(z3.InRe(v.t, z3.Plus(z3.Range("0", "9")))))]
+
+    def _strip(self, v, st, args, left, right):
+        """A-strip: s == l ++ r ++ t with l, t over the strip set and r not starting / ending in it."""
+        if args:
+            lit = _lit_any(args[0])
+            if lit is None:
+                raise OutOfReach("strip with a non-literal character set")
+            chars = [ord(c) for c in lit]
+        else:
+            chars = list(WS_CHARS)
+        if not chars:
+            return [Ev(st, v)]
+        cls = re_chars(chars)
+        notcls = re_not_chars(chars, 0x2FFFF)
+        r = z3.String(fresh_name("stripped"))
+        l = z3.String(fresh_name("lstrip")) if left else z3.StringVal("")
+        t = z3.String(fresh_name("rstrip")) if right else z3.StringVal("")
+        st.assume(v.t == z3.Concat(l, r, t), z3.InRe(l, z3.Star(cls)), z3.InRe(t, z3.Star(cls)))
+        anyc = z3.Star(z3.Range(chr(0), chr(0x2FFFF))) if False else z3.Star(z3.Union(cls, notcls))
+        if left:
+            st.assume(z3.InRe(r, z3.Union(z3.Re(""), z3.Concat(notcls, anyc))))
+        if right:
+            st.assume(z3.InRe(r, z3.Union(z3.Re(""), z3.Concat(anyc, notcls))))
+        return [Ev(st, type(v)(r))]
+
+    def me_bytes_rstrip(self, v, st, args, kwargs, fx):
+        return self._strip(v, st, args, False, True)
+
+    def me_bytes_lstrip(self, v, st, args, kwargs, fx):
+        return self._strip(v, st, args, True, False)
+
+    def me_bytes_strip(self, v, st, args, kwargs, fx):
+        return self._strip(v, st, args, True, True)
+
+    def me_str_strip(self, v, st, args, kwargs, fx):
+        return self._strip(v, st, args, True, True)
+
+    def me_str_rstrip(self, v, st, args, kwargs, fx):
+        return self._strip(v, st, args, False, True)
 
     def me_bytes_decode(self, v, st, args, kwargs, fx):
         t = z3.Function("decode_" + (_lit(args[0]) if args else "utf8"), z3.StringSort(), z3.StringSort())(v.t)
@@ -747,6 +793,14 @@ class RangeV(V):
 
     def __init__(self, args):
         self.args = list(args)
+
+
+def _lit_any(v):
+    if isinstance(v, (StrV, BytesV)):
+        t = z3.simplify(v.t)
+        if z3.is_string_value(t):
+            return _z3str(t)
+    return None
 
 
 def _lit(v):
